@@ -343,6 +343,8 @@ class ExprMixin:
 
     # ------------------------------------------------------------------ iteration
     def iterate(self, v):
+        if isinstance(v, LogList):
+            return [self.loglist_get(v, j) for j in range(len(v))]
         if isinstance(v, list):
             return list(v)
         if isinstance(v, (tuple, set, frozenset, range)):
@@ -481,6 +483,8 @@ class ExprMixin:
         is_slice = isinstance(k, tuple) and len(k) == 4 and k[0] == "slice"
         if isinstance(o, (list, tuple)):
             if is_slice:
+                if isinstance(o, LogList):
+                    return self.iterate(o)[self.norm_slice(k, len(o))]
                 return o[self.norm_slice(k, len(o))]
             return self.seq_get(o, k)
         if isinstance(o, DictV):
@@ -531,7 +535,72 @@ class ExprMixin:
             return o[i]
         raise Unsupported("subscript on %r" % (type(o).__name__,))
 
+    def loglist_get(self, seq, k):
+        i = ops.int_of(k)
+        n = len(seq)
+        if isinstance(i, int):
+            j = i + n if i < 0 else i
+            if not (0 <= j < n):
+                self.raise_builtin("IndexError", "list index out of range")
+            val = list.__getitem__(seq, j)
+            jt = ir.const(j)
+        else:
+            t = i.t
+            if t.lo is None or t.lo < 0:
+                if self.path.decide(ir.lt(t, 0), "negative-index"):
+                    raise Unsupported("negative symbolic index into a logged list")
+            if not self.path.decide(ir.lt(t, n), "index-in-range"):
+                self.raise_builtin("IndexError", "list index out of range")
+            jt = t
+            if seq.uf is not None:
+                raw = ir.app(seq.uf, t, seq.lo, seq.hi)
+                val = FixedV(seq.wrap, raw) if seq.wrap is not None else SInt(raw)
+            else:
+                val = list.__getitem__(seq, n - 1)
+                for j in range(n - 2, -1, -1):
+                    m = ops.merge(ir.eq(t, j), list.__getitem__(seq, j), val)
+                    if m is NotImplemented:
+                        raise Unsupported("logged list with non-mergeable elements")
+                    val = m
+        for idx, v in seq.log:
+            c = ir.eq(ir.lift(idx), jt)
+            if c.op == "bconst":
+                if ir.cval(c):
+                    val = v
+                continue
+            m = ops.merge(c, v, val)
+            if m is NotImplemented:
+                if self.path.decide(c, "logged-list-alias"):
+                    val = v
+                continue
+            val = m
+        return val
+
+    def loglist_set(self, seq, k, v):
+        i = ops.int_of(k)
+        n = len(seq)
+        if isinstance(i, int):
+            j = i + n if i < 0 else i
+            if not (0 <= j < n):
+                self.raise_builtin("IndexError", "list assignment index out of range")
+            if not seq.log and seq.uf is None:
+                list.__setitem__(seq, j, v)
+            else:
+                # a UF-backed base is read through the function for symbolic indices, so it must never be
+                # modified in place: every write goes to the log
+                seq.log.append((j, v))
+            return
+        t = i.t
+        if t.lo is None or t.lo < 0:
+            if self.path.decide(ir.lt(t, 0), "negative-index"):
+                raise Unsupported("negative symbolic index into a logged list")
+        if not self.path.decide(ir.lt(t, n), "index-in-range"):
+            self.raise_builtin("IndexError", "list assignment index out of range")
+        seq.log.append((t, v))
+
     def seq_get(self, seq, k):
+        if isinstance(seq, LogList):
+            return self.loglist_get(seq, k)
         i = ops.int_of(k)
         n = len(seq)
         if isinstance(i, int):
@@ -579,6 +648,8 @@ class ExprMixin:
         raise Unsupported("item assignment on %r" % (type(o).__name__,))
 
     def seq_set(self, seq, k, v):
+        if isinstance(seq, LogList):
+            return self.loglist_set(seq, k, v)
         i = ops.int_of(k)
         n = len(seq)
         if isinstance(i, int):
